@@ -128,3 +128,61 @@ example : rowOf "bmm-opCatBmm_fp16      12288   \n".toList =
     some (rowKey ⟨"bmm", .opcat "Bmm_fp16", 12288⟩) := by decide +kernel
 
 end AiuVerif.C11
+
+namespace AiuVerif.C11
+open AiuVerif.LogParse
+
+/-! ### the first column of a row: kernel name and category -/
+
+theorem catSplit_plain : ∀ (cs : List Char) (n : Nat) (cur : List Char), (∀ c ∈ cs, c ≠ '-') → cs.length ≤ n →
+    catSplit n cur cs = [cur.reverse ++ cs]
+  | [], 0, cur, _, _ => by simp [catSplit]
+  | [], _ + 1, cur, _, _ => by simp [catSplit]
+  | c :: cs, 0, _, _, hn => by simp at hn
+  | c :: cs, n + 1, cur, h, hn => by
+    have hc : c ≠ '-' := h c List.mem_cons_self
+    have hc' : ('-' == c) = false := by simp [Ne.symm hc]
+    have h1 : sepOpCat.isPrefixOf (c :: cs) = false := by simp [sepOpCat, List.isPrefixOf, hc']
+    have h2 : ((c :: cs) == sepNA) = false := by
+      simp only [sepNA, List.cons_beq_cons, Bool.and_eq_false_imp]
+      intro h0; exact absurd (by simpa using h0) hc
+    unfold catSplit
+    rw [if_neg (by rw [h1]; exact Bool.false_ne_true), if_neg (by rw [h2]; exact Bool.false_ne_true)]
+    rw [catSplit_plain cs n (c :: cur) (fun x hx => h x (List.mem_cons_of_mem _ hx)) (by simpa using hn)]
+    simp
+
+/-- **`kernel-opCat<category>`**: a first column made of a kernel name and a category that contain no further `-` is
+split into exactly kernel, separator, category - so the row's key is `kernel Cmpt Exec` and its category `<category>`. -/
+theorem catSplit_opcat : ∀ (k : List Char) (c : List Char) (n : Nat) (cur : List Char), (∀ x ∈ k, x ≠ '-') →
+    (∀ x ∈ c, x ≠ '-') → k.length + 6 + c.length ≤ n →
+    catSplit n cur (k ++ sepOpCat ++ c) = [cur.reverse ++ k, sepOpCat, c]
+  | [], c, 0, _, _, _, hn => by simp at hn
+  | [], c, n + 1, cur, _, hc, hn => by
+    have hp : sepOpCat.isPrefixOf ([] ++ sepOpCat ++ c) = true := by simp [sepOpCat, List.isPrefixOf]
+    have hd : ([] ++ sepOpCat ++ c).drop 6 = c := by simp [sepOpCat]
+    have hs : ([] : List Char) ++ sepOpCat ++ c = '-' :: ('o' :: 'p' :: 'C' :: 'a' :: 't' :: c) := by simp [sepOpCat]
+    rw [hs] at hp hd ⊢
+    unfold catSplit
+    rw [if_pos hp, hd, catSplit_plain c n [] hc (by simp at hn; omega)]
+    simp
+  | x :: k, c, 0, _, _, _, hn => by simp at hn
+  | x :: k, c, n + 1, cur, hk, hc, hn => by
+    have hx : x ≠ '-' := hk x List.mem_cons_self
+    have hx' : ('-' == x) = false := by simp [Ne.symm hx]
+    have h1 : sepOpCat.isPrefixOf (x :: (k ++ sepOpCat ++ c)) = false := by simp [sepOpCat, List.isPrefixOf, hx']
+    have h2 : ((x :: (k ++ sepOpCat ++ c)) == sepNA) = false := by
+      simp only [sepNA, List.cons_beq_cons, Bool.and_eq_false_imp]
+      intro h0; exact absurd (by simpa using h0) hx
+    have hs : (x :: k) ++ sepOpCat ++ c = x :: (k ++ sepOpCat ++ c) := by simp
+    rw [hs]
+    unfold catSplit
+    rw [if_neg (by rw [h1]; exact Bool.false_ne_true), if_neg (by rw [h2]; exact Bool.false_ne_true)]
+    rw [catSplit_opcat k c n (x :: cur) (fun y hy => hk y (List.mem_cons_of_mem _ hy)) hc (by simp at hn ⊢; omega)]
+    simp
+
+theorem category_opcat (k c : List Char) : category [k, sepOpCat, c] = String.ofList c := by
+  simp [category]
+
+example : catSplit 17 [] "bmm-opCatBmm_fp16".toList = ["bmm".toList, sepOpCat, "Bmm_fp16".toList] := by decide +kernel
+
+end AiuVerif.C11
